@@ -412,6 +412,53 @@ def _work(arg):
     return S
 
 
+def secure_exec_phase(run_, S, seed):
+    """the env histories once more in a process that runs in the loader's secure-execution mode
+    (set-uid copy of the uninstrumented driver): 'returns its exact value whenever it is set' has no
+    exception for privileged programs.  Needs root and a mount that honours set-id bits; otherwise the
+    phase is skipped (recorded in the evidence, not a verdict)."""
+    import os
+    import shutil
+    import stat
+    if os.geteuid() != 0:
+        return {"secure_exec_mode": "skipped: not root"}
+    exe = build.build_exe("plain", ["envdl.cpp"], ["src/env/get.cpp"],
+                          link=["-Wl,--wrap=dlopen,--wrap=dlclose,--wrap=dlsym,--wrap=dlerror", "-rdynamic", "-ldl"])
+    d = os.path.join(build.CACHE, "tmp", "suid-%d" % os.getpid())
+    os.makedirs(d, exist_ok=True)
+    os.chmod(d, 0o755)
+    copy = os.path.join(d, "envdl-setuid")
+    try:
+        shutil.copy(exe, copy)
+        os.chown(copy, 65534, 65534)
+        os.chmod(copy, 0o4755 | stat.S_ISGID)
+        # every directory on the way must be searchable for the other uid
+        rng = random.Random("c19-sec-%d" % seed)
+        cases = [("s%d" % i, gen_env(rng, 12)) for i in range(300)]
+        scripts = [("mode", "CASE mode\nMODE\nEND\n")] + [(cid, env_script(cid, ops)) for cid, ops in cases]
+        res = driver.run_cases(copy, scripts)
+        mode = res.get("mode")
+        if mode is None or mode.status != "ok" or not mode.lines or "secure=1" not in mode.lines[0]:
+            return {"secure_exec_mode": "skipped: set-id bits are not honoured here (%s)" %
+                                        (mode.lines[0] if mode and mode.lines else "driver did not start")}
+        n = 0
+        for cid, ops in cases:
+            r = res.get(cid)
+            if r is None or r.status != "ok":
+                continue
+            n += 1
+            before = len(S.viol)
+            judge_env(ops, r.lines, S, {"kind": "env", "ops": [list(o) for o in ops], "secure_exec": True})
+            for k in range(before, len(S.viol)):
+                key, what, case = S.viol[k]
+                S.viol[k] = (key + ":secure-execution-mode", what, case)
+        return {"secure_exec_mode": mode.lines[0], "secure_exec_histories": n}
+    except OSError as e:
+        return {"secure_exec_mode": "skipped: %s" % e}
+    finally:
+        shutil.rmtree(d, ignore_errors=True)
+
+
 def _build():
     exe = build.build_exe("gasan", ["envdl.cpp"], ["src/env/get.cpp"],
                           link=["-Wl,--wrap=dlopen,--wrap=dlclose,--wrap=dlsym,--wrap=dlerror", "-rdynamic", "-ldl"])
@@ -442,6 +489,9 @@ def run(tier, replay=None):
         n = 16 if tier == "quick" else 64
         for part in optrun.pmap(_work, [(tier, run_.seed, c, n, exe, libs) for c in range(n)]):
             S.merge(part)
+    sec = {}
+    if not replay:
+        sec = secure_exec_phase(run_, S, run_.seed)
     for key, what, case in S.viol:
         run_.violation(key, what, case)
     for r in S.inconc[:3]:
@@ -449,6 +499,7 @@ def run(tier, replay=None):
     for s in S.samples:
         run_.sample(s)
     run_.coverage["counters"] = dict(sorted(S.counters.items()))
+    run_.coverage.update(sec)
     if not replay:
         for need in ("calls-after-the-library-object-died", "failed-opens-while-libraries-live", "failed-lookups",
                      "read:set-empty", "read:unset", "dlclose-events"):
